@@ -723,13 +723,15 @@ impl<H: NodeHasher> PageWalker<H> {
         let stack_top = self.stack.last_mut().unwrap();
         stack_top.page.set_node(node_index, node);
 
+        // Always record the node as changed: if the page is marked cleared here but repopulated
+        // later in the same update, `set_changed` erases the clear bit again and the diff must
+        // still say that this node was overwritten (the diff is what the WAL replays).
+        stack_top.diff.set_changed(node_index);
         if self.position.is_first_layer_in_page()
             && node == TERMINATOR
             && sibling_node == TERMINATOR
         {
             stack_top.diff.set_cleared();
-        } else {
-            stack_top.diff.set_changed(node_index);
         }
     }
 
